@@ -30,3 +30,71 @@ func VerifH12TopIDs() {
 	}
 	verifAssert(len(pairs) <= 1, "top(ids): no extra rows")
 }
+
+// H12b: TopN(n) without ids on a fragment whose rows fit in the ranked cache:
+// after a recalculation it returns min(n, non-empty rows) rows, the largest
+// counts first, with exact counts - also when the cache is exactly full and
+// counts went down after an earlier recalculation.
+func VerifH12TopN() {
+	size := 2 + verifChoice("cachesize", 2) // 2 or 3 rows fit
+	f := verifNewFragment(CacheTypeRanked, uint32(size))
+	// rows 0..size-1 with concrete columns 0..k-1 (k chosen per row)
+	counts := make([]int, size)
+	var rs, cs []uint64
+	for r := 0; r < size; r++ {
+		counts[r] = 1 + verifChoice("count", 3)
+		for c := 0; c < counts[r]; c++ {
+			rs, cs = append(rs, uint64(r)), append(cs, uint64(c))
+		}
+	}
+	// one import: the cache's time-based throttle is consulted once
+	_ = f.bulkImport(rs, cs, &ImportOptions{})
+	f.RecalculateCache()
+	// some writes after the first recalculation
+	steps := verifBound("steps", 1)
+	for i := 0; i < steps; i++ {
+		r := verifChoice("row", size)
+		switch verifChoice("op", 3) {
+		case 0:
+			if counts[r] > 0 {
+				counts[r]--
+				_, _ = f.clearBit(uint64(r), uint64(counts[r]))
+			}
+		case 1:
+			_, _ = f.setBit(uint64(r), uint64(counts[r]))
+			counts[r]++
+		}
+	}
+	f.RecalculateCache()
+	n := 1 + verifChoice("n", size)
+	pairs, err := f.top(topOptions{N: n})
+	verifReach("topn returned")
+	verifAssert(err == nil, "top(n): no error")
+	nonEmpty := 0
+	for _, c := range counts {
+		if c > 0 {
+			nonEmpty++
+		}
+	}
+	want := n
+	if nonEmpty < want {
+		want = nonEmpty
+	}
+	verifAssert(len(pairs) == want, "top(n): min(n, non-empty rows) rows")
+	for i, p := range pairs {
+		verifAssert(p.ID < uint64(size) && p.Count == uint64(counts[p.ID]), "top(n): exact counts")
+		if i > 0 {
+			verifAssert(pairs[i-1].Count >= p.Count, "top(n): non-increasing counts")
+		}
+		// no row left out has a larger count
+		for r, c := range counts {
+			listed := false
+			for _, q := range pairs {
+				listed = listed || q.ID == uint64(r)
+			}
+			if !listed {
+				verifAssert(uint64(c) <= p.Count, "top(n): the largest counts are returned")
+			}
+		}
+	}
+}
